@@ -14,7 +14,8 @@ A *case* is a JSON-able dict:
       | {'kind': 'class', 'name', 'body': CLS}
       | {'kind': 'alias', 'name', 'target': dotted expression}
       | {'kind': 'const', 'name'} | {'kind': 'field', 'name', 'hint'}
-  FN  = {'ann': 'none'|'ign'|'chk', 'hint': key of HINTS, 'ret': None|'ok'|'bad', 'ntc': bool, 'pre': bool, 'doc': str|None}
+  FN  = {'ann': 'none'|'ign'|'chk'|'bad' ('bad': a parameter annotated `NoReturn`, which @beartype rejects AT DECORATION TIME),
+         'hint': key of HINTS, 'ret': None|'ok'|'bad', 'ntc': bool, 'pre': bool, 'doc': str|None}
   SA  = {'wrap': 'func'|'cm'|'sm'|'prop', 'name', **FN}
 """
 from __future__ import annotations
@@ -35,7 +36,7 @@ HINTS = {
 }
 PARAM_V = 'BeartypeCallHintParamViolation'
 RETURN_V = 'BeartypeCallHintReturnViolation'
-HEADER = ('import dataclasses\nimport functools\nfrom typing import Any, Optional, no_type_check\n'
+HEADER = ('import dataclasses\nimport functools\nfrom typing import Any, NoReturn, Optional, no_type_check\n'
           'from beartype import beartype\n'
           # an ordinary functools.wraps-style pass-through decorator that amends the docstring and tags the closure:
           # what beartype decorates is the CLOSURE (it is the "original" the wrapper must expose and mirror)
@@ -75,9 +76,11 @@ def render_fn(name: str, fn: dict, first: str | None, param: bool, ind: str, dec
         out.append(f'{ind}@passthru')
     ps = [first] if first else []
     if param:
-        ps.append({'none': 'x', 'ign': 'x: object', 'chk': f"x: {fn['hint']}"}[fn['ann']])
+        ps.append({'none': 'x', 'ign': 'x: object', 'chk': f"x: {fn['hint']}", 'bad': 'x: NoReturn'}[fn['ann']])
+    elif fn['ann'] == 'bad':
+        ps.append('x: NoReturn = None')          # getter / deleter: an optional parameter carries the rejected hint
     ret = ''
-    if fn['ann'] == 'chk' and fn['ret']:
+    if fn['ann'] in ('chk', 'bad') and fn['ret']:
         ret = ' -> str'
     elif fn['ann'] == 'ign' and fn['ret']:
         ret = ' -> Any'
@@ -185,9 +188,12 @@ class Labels:
 
 
 def ann_kind(f) -> str:
+    from typing import NoReturn
     a = getattr(f, '__annotations__', None)
     if not a:
         return 'none'
+    if any(h is NoReturn for k, h in a.items() if k != 'return'):
+        return 'bad'                     # `NoReturn` on a parameter: code generation raises at decoration time
     if all(h is object or h is Any for h in a.values()):
         return 'ign'
     return 'chk'
@@ -389,8 +395,16 @@ def calls_of(cls, spec: dict, prefix: str = '') -> list[tuple[str, str]]:
 
 
 # -- expectations computed from the generator's spec only (no model, no beartype) -------------
+DECOR_EXC = 'BeartypeDecorHintPep484Exception'      # what `x: NoReturn` raises at decoration time
+
+
 def fn_checkable(fn: dict) -> bool:
     return fn['ann'] == 'chk' and not fn['ntc']
+
+
+def fn_fails(fn: dict, conf: str, opt: bool) -> bool:
+    """Decorating this function raises (a rejected hint, reached: not -O, not O0, not @no_type_check)."""
+    return fn['ann'] == 'bad' and not fn['ntc'] and conf != 'o0' and not opt
 
 
 def fn_pre_wrapped(fn: dict, opt: bool) -> bool:
@@ -398,12 +412,87 @@ def fn_pre_wrapped(fn: dict, opt: bool) -> bool:
 
 
 def fn_wrapped_now(fn: dict, conf: str, opt: bool, cls_pre: bool = False) -> bool:
-    """A NEW wrapper is expected from this decoration."""
+    """A NEW wrapper is expected from this decoration (when the decoration gets as far as this function)."""
     return fn_checkable(fn) and not fn_pre_wrapped(fn, opt) and conf != 'o0' and not opt and not cls_pre
 
 
-def fn_checked_after(fn: dict, conf: str, opt: bool, cls_pre: bool = False) -> bool:
-    return fn_pre_wrapped(fn, opt) or fn_wrapped_now(fn, conf, opt) or (cls_pre and fn_checkable(fn) and not opt)
+def member_fns(m: dict) -> list[tuple[str, dict]]:
+    if m['kind'] in ('func', 'cm', 'sm'):
+        return [('', m)]
+    if m['kind'] == 'prop':
+        return [(a, m[a]) for a in ('get', 'set', 'del') if m.get(a)]
+    return []
+
+
+def plan(spec: dict, conf: str, opt: bool, cls_pre: bool = False, live: bool = True, qual: str = '') -> dict:
+    """What ONE decoration of this class is expected to do, from the spec alone:
+      new[name][role]  a new wrapper for that function
+      sub[name]        the plan of a class the body defines
+      marked           the class is marked as decorated afterwards
+      complete         the attribute loop ran to its end (the dataclass `__init__` was reached)
+      raised           an exception propagates out of the decoration
+      warns            subjects of the warnings issued (qualified function name, or 'Property'), in order
+    Members are decorated in dictionary order; the first member whose decoration raises ends the
+    loop (the members after it are not reached) unless the configuration has the warning option:
+    then that member alone is left as it was, with one warning. `live=False`: not reached at all."""
+    cls_pre = (cls_pre or bool(spec.get('pre'))) and not opt
+    qual = f"{qual}.{spec['name']}" if qual else spec['name']
+    out = {'new': {}, 'sub': {}, 'marked': cls_pre, 'complete': cls_pre, 'raised': False, 'warns': []}
+    going = live and not opt and not cls_pre
+    for m in spec['members']:
+        k, nm = m['kind'], m.get('name')
+        if k in ('func', 'cm', 'sm', 'prop'):
+            fns = member_fns(m)
+            bad = [fn for _r, fn in fns if fn_fails(fn, conf, opt)]
+            out['new'][nm] = {r: False for r, _f in fns}
+            if not going:
+                continue
+            if bad:
+                if conf == 'warn':
+                    out['warns'].append('Property' if k == 'prop' else f'{qual}.{nm}()')
+                else:
+                    out['raised'], going = True, False
+                continue
+            out['new'][nm] = {r: fn_wrapped_now(fn, conf, opt, cls_pre) for r, fn in fns}
+        elif k == 'class':
+            sub = plan(m['body'], conf, opt, cls_pre, going, qual)
+            out['sub'][nm] = sub
+            out['warns'] += sub['warns']
+            if sub['raised']:
+                out['raised'], going = True, False
+    if going:
+        out['marked'] = out['complete'] = True
+    return out
+
+
+def partial_props(spec: dict, conf: str, opt: bool, prefix: str = '') -> set:
+    """Dotted names of the properties that the class route leaves untouched as a whole although only
+    SOME accessor cannot be decorated (warning option only): decorating the accessor functions one by
+    one by hand wraps the others."""
+    out = set()
+    for m in spec['members']:
+        if m['kind'] == 'prop' and conf == 'warn' and any(fn_fails(fn, conf, opt) for _r, fn in member_fns(m)):
+            out.add(prefix + m['name'])
+        elif m['kind'] == 'class':
+            out |= partial_props(m['body'], conf, opt, f"{prefix}{m['name']}.")
+    return out
+
+
+def hand_expectation(spec: dict, conf: str, opt: bool) -> tuple[bool, int]:
+    """(raises, number of warnings) of decorating every function by hand, in dictionary order."""
+    n = 0
+    for m in spec['members']:
+        if m['kind'] == 'class':
+            r, k = hand_expectation(m['body'], conf, opt)
+            n += k
+            if r:
+                return True, n
+        for _r, fn in member_fns(m):
+            if fn_fails(fn, conf, opt):
+                if conf != 'warn':
+                    return True, n
+                n += 1
+    return False, n
 
 
 def expected_call(fn: dict, checked: bool, arg: str | None) -> str:
@@ -416,32 +505,37 @@ def expected_call(fn: dict, checked: bool, arg: str | None) -> str:
     return 'ok'
 
 
-def expected_calls(spec: dict, conf: str, opt: bool, prefix: str = '', cls_pre: bool = False) -> list[tuple[str, str]]:
+def expected_calls(spec: dict, conf: str, opt: bool, prefix: str = '', cls_pre: bool = False, pl: dict | None = None) -> list[tuple[str, str]]:
     out = []
+    if pl is None:
+        pl = plan(spec, conf, opt, cls_pre)
     cls_pre = (cls_pre or bool(spec.get('pre'))) and not opt
+
+    def checked(fn, nm, role):
+        return fn_pre_wrapped(fn, opt) or pl['new'][nm][role] or (cls_pre and fn_checkable(fn))
     for m in spec['members']:
         k, nm = m['kind'], m.get('name')
         lbl = f'{prefix}{nm}'
         if k in ('func', 'cm', 'sm'):
-            ch = fn_checked_after(m, conf, opt, cls_pre)
+            ch = checked(m, nm, '')
             out.append((lbl + '(good)', expected_call(m, ch, 'good')))
             out.append((lbl + '(bad)', expected_call(m, ch, 'bad')))
             if k != 'func':
                 out.append((lbl + ' via class(good)', expected_call(m, ch, 'good')))
             out.append((lbl + ' via class(bad)', expected_call(m, ch, 'bad')))
         elif k == 'prop':
-            out.append((lbl + ' get', expected_call(m['get'], fn_checked_after(m['get'], conf, opt, cls_pre), None)))
+            out.append((lbl + ' get', expected_call(m['get'], checked(m['get'], nm, 'get'), None)))
             if m.get('set'):
-                ch = fn_checked_after(m['set'], conf, opt, cls_pre)
+                ch = checked(m['set'], nm, 'set')
                 out.append((lbl + ' set(good)', expected_call(m['set'], ch, 'good')))
                 out.append((lbl + ' set(bad)', expected_call(m['set'], ch, 'bad')))
             if m.get('del'):
-                out.append((lbl + ' del', expected_call(m['del'], fn_checked_after(m['del'], conf, opt, cls_pre), None)))
+                out.append((lbl + ' del', expected_call(m['del'], checked(m['del'], nm, 'del'), None)))
         elif k == 'class':
-            out += expected_calls(m['body'], conf, opt, f'{lbl}.', cls_pre)
+            out += expected_calls(m['body'], conf, opt, f'{lbl}.', cls_pre, pl['sub'][nm])
     flds = [m for m in spec['members'] if m['kind'] == 'field']
     if spec.get('dataclass') and flds:
-        ch = (conf != 'o0' and not opt) or cls_pre
+        ch = (conf != 'o0' and not opt and pl['complete']) or cls_pre
         out.append((prefix + '<init>(good)', 'ok'))
         out.append((prefix + '<init>(bad)', PARAM_V if ch else 'ok'))
     return out
